@@ -26,6 +26,9 @@ def frame_menu(rng_bytes=b"0123456789abcdef"):
         # counts and delays that need 2-, 4- and 8-byte varints next to 1-byte ones
         "ACK_ECN_WIDE": qf.ack(largest=300, delay=20000, first=1, ecn=(70, 1 << 30, 2))[0],
         "ACK_RANGES_WIDE": qf.ack(largest=70000, delay=2, ranges=((1, 200), (300, 1)), first=100)[0],
+        # a CONNECTION_CLOSE in FRONT of the STREAM frame of the same packet (RFC 9000 12.4 allows any order of frames)
+        "CONNECTION_CLOSE": qf.connection_close(err=0, ftype=0, reason=b"bye")[0],
+        "CONNECTION_CLOSE_APP": qf.connection_close(err=3, reason=b"", app=True)[0],
         "CRYPTO": qf.crypto(0, b"\x04\x00\x00\x04abcd")[0],
         "NEW_TOKEN": qf.new_token(b"tok-tok-tok")[0], "NEW_CONNECTION_ID": qf.new_connection_id(5, b"NEWCID!!", token=rng_bytes)[0],
         "MAX_DATA": qf.max_data(5000)[0], "MAX_STREAM_DATA": qf.max_stream_data(4, 70000)[0], "MAX_STREAMS": qf.max_streams(40)[0],
@@ -46,6 +49,8 @@ SCRIPTS = {
     "server_first": [("s", [(3, 40)]), ("c", [(0, 40)]), ("s", [(0, 40)])],
 }
 
+FRAMES_BEFORE = FRAMES_K + ["CONNECTION_CLOSE", "CONNECTION_CLOSE_APP"]
+
 ALTS = {
     "suite": [0x1302, 0x1303, 0x1304],
     "offered": ["other_first", "grease_first", "chacha_first", "single"],
@@ -55,7 +60,7 @@ ALTS = {
     "pn": [(1, 0, 1), (3, 0, 1), (4, 0, 1), (2, 1, 1), (1, 100, 1), (2, 255, 1), (2, 256, 1), (3, 65535, 1), (4, (1 << 31) - 2, 1),
            (2, 0, 2), (2, 0, 200), (3, 0, 70000), (1, 0, 100)],
     "coalesce": ["ini+hs", "ini+hs+1rtt", "hs+1rtt"],
-    "before": FRAMES_K,
+    "before": FRAMES_BEFORE,
     "after": FRAMES_K,
     "script": list(SCRIPTS),
     "stream_flags": ["off", "fin", "off+fin", "nolen", "nolen+off", "nolen+fin", "nolen+off+fin"],
@@ -64,6 +69,7 @@ ALTS = {
     "retry": [True, 63, 64, 96, 300],          # Retry with a 24-byte token / with a token of that many bytes (Token Length needs 2 bytes from 64 on)
     "token": [1, 63, 64, 300],                 # the first Initial already presents a token (from NEW_TOKEN) of that many bytes
     "zero_rtt": [True],
+    "vn": [True],                              # a Version Negotiation datagram answers the client's first Initial
     "ncid": ["s8", "s8c8", "s20c4", "s1c1", "s1c1eq", "s8c8eq"],
     "v6": [True],
     # ns_close_<g>: nanosecond-resolution capture, consecutive datagrams g nanoseconds apart (within one microsecond; 1 and 130 ns
@@ -94,7 +100,7 @@ def to_model(sc):
         m["offered"] = [0x1303, suite] if suite != 0x1303 else [0x1303, 0x1301]
     elif off == "single":
         m["offered"] = [suite]
-    for k in ("ccid_len", "scid_len", "odcid_len", "coalesce", "retry", "zero_rtt"):
+    for k in ("ccid_len", "scid_len", "odcid_len", "coalesce", "retry", "zero_rtt", "vn"):
         if k in sc:
             m[k] = sc[k]
     if sc.get("retry") not in (None, True, False):
